@@ -500,7 +500,7 @@ package spec
 
 //@ func verifLemmaRebase
 //@   inline   denormalizeRef, normalizeRef
-//@   property C02, C03, C09
+//@   property C02, C03, C09, C12
 //@   requires canonicalRef(c)
 //@   requires canonicalRef(rootBase) && urlFrag(rootBase) == "" && urlQuery(rootBase) == ""
 //@   requires urlQuery(c) == "" && !hasSuffix(urlPath(c), "/") && !hasSuffix(urlPath(rootBase), "/")
@@ -530,7 +530,7 @@ package spec
 
 //@ func verifLemmaDenorm
 //@   inline   denormalizeRef, normalizeRef
-//@   property C02
+//@   property C02, C12
 //@   requires canonicalRef(c)
 //@   requires canonicalRef(rootBase) && urlFrag(rootBase) == "" && urlQuery(rootBase) == ""
 //@   requires urlQuery(c) == "" && !hasSuffix(urlPath(c), "/") && !hasSuffix(urlPath(rootBase), "/")
